@@ -173,8 +173,10 @@ class LaxBoundedSemaphore(_Semaphore):
                     cond.notify_all()
 
         def clear(self):
-            while self._value < self._initial_value:
-                _Semaphore.release(self)
+            with self._cond:
+                if self._value < self._initial_value:
+                    self._value = self._initial_value
+                    self._cond.notify_all()
     else:
 
         def __init__(self, value=1, verbose=None):
@@ -196,8 +198,11 @@ class LaxBoundedSemaphore(_Semaphore):
                     cond.notifyAll()
 
         def clear(self):  # noqa
-            while self._Semaphore__value < self._initial_value:
-                _Semaphore.release(self)
+            cond = self._Semaphore__cond
+            with cond:
+                if self._Semaphore__value < self._initial_value:
+                    self._Semaphore__value = self._initial_value
+                    cond.notifyAll()
 
 #
 # Exceptions
